@@ -187,7 +187,7 @@ var subRandom = vk.Register(&vk.Sub[Case]{Name: "random", Gen: gen, Check: check
 
 func gen(t *rapid.T) Case {
 	alpha := rapid.SampledFrom([]string{ref.IUPACCodes, "ACGT", "ACGT", "AT", "ACGTN"}).Draw(t, "alphabet")
-	c := Case{Seq: vk.DrawSeq(t, "seq", alpha, 0, vk.Pick(20000, 100000))}
+	c := Case{Seq: vk.DrawSeq(t, "seq", alpha, 0, 100000)}
 	// periodic and reverse-complement-symmetric shapes stress the canonical choice
 	switch rapid.IntRange(0, 5).Draw(t, "shape") {
 	case 0:
